@@ -27,6 +27,7 @@ var clientPrefix = []byte("clients/" + clientName + "/")
 
 type env struct {
 	r      *core.Run
+	first  map[string]string // violation signature -> first case that showed it
 	n      *core.Node
 	states map[string]struct{} // distinct model states visited
 	hashNE int                 // headers whose repository hash differs from go-ethereum's
@@ -44,7 +45,7 @@ func TestC10(t *testing.T) {
 
 	n := core.NewNode(core.NodeConfig{ChainID: "teleport_9000-1", XIBCName: "native-chain", Accounts: []*core.Account{core.NewAccount("a")}})
 	n.Begin(time.Date(2022, 1, 2, 0, 0, 5, 0, time.UTC))
-	e := &env{r: r, n: n, states: map[string]struct{}{}}
+	e := &env{r: r, n: n, states: map[string]struct{}{}, first: map[string]string{}}
 	r.MinNontrivial(r.N(1500, 40000))
 
 	nTrees := r.N(60, 3000)
@@ -56,6 +57,7 @@ func TestC10(t *testing.T) {
 		runTree(e, cid)
 	}
 	r.Set("distinct_model_states", len(e.states))
+	defer func() { r.Set("first_case_per_violation_signature", e.first) }()
 	r.Set("headers_hashing_differently_from_go_ethereum", e.hashNE)
 
 	powCases(e)
@@ -89,12 +91,15 @@ type tcase struct {
 	order string
 	hist  []histEntry
 	tmpID int
+	// ancestors whose consensus state was already found wrong in the committed state: reported once,
+	// at the step that introduced the mismatch, not again at every later step that inherits it
+	badAnc map[*node]bool
 }
 
 func runTree(e *env, cid string) {
 	r := e.r
 	rng := r.Rng(cid)
-	c := &tcase{e: e, id: cid, rng: rng}
+	c := &tcase{e: e, id: cid, rng: rng, badAnc: map[*node]bool{}}
 	c.ctx, _ = e.n.Ctx().CacheContext()
 	c.ctx = c.ctx.WithEventManager(sdk.NewEventManager())
 	c.mode = "plain"
@@ -102,6 +107,9 @@ func runTree(e *env, cid string) {
 		c.mode = "prune"
 	}
 	c.opts = genOpts{emptyBlockProb: []float64{0, 0, 0.3, 0.9}[rng.Intn(4)], siblingRoot: []float64{0, 0.15}[rng.Intn(2)], dtMax: 30}
+	if rng.Intn(4) == 0 {
+		c.opts = genOpts{dtMax: 30, stateSeq: true, salt: rbytes(rng, 8)}
+	}
 	size := 6 + rng.Intn(r.N(26, 34))
 	c.tr = genTree(rng, size, c.opts)
 	c.m = newModel(c.tr.root)
@@ -135,7 +143,10 @@ func runTree(e *env, cid string) {
 		return
 	}
 	r.Count("trees/"+c.mode+"/"+c.order, 1)
-	c.checkAfter(c.ctx, g, "create", "create")
+	if c.opts.stateSeq {
+		r.Count("trees/with_state_sequence_roots", 1)
+	}
+	c.checkAfter(c.ctx, g, "create", "create", true)
 
 	// submission schedule
 	pending := map[*node]bool{}
@@ -220,7 +231,7 @@ func runTree(e *env, cid string) {
 	for k := 0; k < 4; k++ {
 		c.mutantRound()
 	}
-	if e.r.Violations() == 0 && len(c.hist) > 0 && (cid == "tree/0" || cid == "tree/1") {
+	if len(c.hist) > 0 && (cid == "tree/0" || cid == "tree/1") {
 		r.Sample(map[string]interface{}{"case": cid, "mode": c.mode, "order": c.order, "tree": c.treeDesc(), "first_steps": c.hist[:minInt(len(c.hist), 12)]})
 	}
 }
@@ -230,6 +241,13 @@ func minInt(a, b int) int {
 		return a
 	}
 	return b
+}
+
+func (c *tcase) viol(key string, detail interface{}) {
+	if _, ok := c.e.first[key]; !ok {
+		c.e.first[key] = c.id
+	}
+	c.e.r.Violation(c.id, key, detail)
 }
 
 // sweep tries, on a discarded branch, a fresh valid child of stored headers
@@ -242,7 +260,7 @@ func (c *tcase) sweep(limit int) {
 		sort.Slice(st, func(i, j int) bool { return st[i].id < st[j].id })
 	}
 	for _, p := range st {
-		h := genChild(c.rng, p, c.opts)
+		h, _ := genChild(c.rng, p, c.opts)
 		c.attempt(h, c.tmpNode(p, h), false, "probe-child")
 	}
 }
@@ -262,10 +280,13 @@ func (c *tcase) mutantRound() {
 		st := c.m.storedSorted()
 		p = st[c.rng.Intn(len(st))]
 	}
-	base := genChild(c.rng, p, c.opts)
+	base, _ := genChild(c.rng, p, c.opts)
 	bt := c.blockTimeFor(base.Time)
 	for try := 0; try < 6; try++ {
 		kind := mutKinds[c.rng.Intn(len(mutKinds))]
+		if pl := p.hdr.GasLimit; try == 0 && pl >= 5000 && pl-4999 < pl/1024 && c.rng.Intn(2) == 0 {
+			kind = "gas-limit/below-5000" // rarely applicable: take the opportunity
+		}
 		mh, ok := mutate(c.rng, kind, base, p, bt)
 		if !ok {
 			continue
@@ -347,23 +368,26 @@ func (c *tcase) attemptAt(h ethtypes.Header, nd *node, commit bool, what string,
 
 	switch {
 	case panicked:
-		r.Violation(c.id, "panic/update-client/"+kindLabel, detail(map[string]interface{}{"panic": err.Error()}))
+		c.viol("panic/update-client/"+kindLabel, detail(map[string]interface{}{"panic": err.Error()}))
 	case err == nil && j.v == mustReject:
-		r.Violation(c.id, "accepted-invalid/rinkeby/"+j.rule, detail(nil))
+		c.viol("accepted-invalid/rinkeby/"+j.rule, detail(nil))
 	case err != nil && j.v == mustAccept:
 		key := "wedged/" + rel + "/err=" + errSlug(err)
 		if j.parent == c.m.head {
 			key = "rejected-valid/child-of-head/err=" + errSlug(err)
 		}
-		r.Violation(c.id, key, detail(map[string]interface{}{"error": err.Error()}))
+		c.viol(key, detail(map[string]interface{}{"error": err.Error()}))
 	}
 
 	accepted := err == nil && !panicked
-	if accepted && j.v != mustReject {
-		// consequences are checked on the branch that holds the update, committed or not
-		c.checkAfter(uctx, nd, rel, what)
+	if accepted && j.v != mustReject && j.parent == nil {
+		r.Count("observed/accepted_header_with_nonzero_revision_number", 1)
 	}
-	if accepted && commit && j.v != mustReject {
+	if accepted && j.v != mustReject && j.parent != nil {
+		// consequences are checked on the branch that holds the update, committed or not
+		c.checkAfter(uctx, nd, rel, what, commit)
+	}
+	if accepted && commit && j.v != mustReject && j.parent != nil {
 		write()
 		if !j.resub {
 			c.m.add(nd)
@@ -377,7 +401,7 @@ func (c *tcase) attemptAt(h ethtypes.Header, nd *node, commit bool, what string,
 		// a rejected (or discarded) update leaves the client's store byte-identical
 		post := e.n.DumpPrefix(c.ctx, "xibc", clientPrefix)
 		if d := core.Diff("xibc", pre, post); len(d) > 0 {
-			r.Violation(c.id, "rejected-update-changed-client-store/"+kindLabel, detail(map[string]interface{}{"diff": core.TrimDiff(d, 10)}))
+			c.viol("rejected-update-changed-client-store/"+kindLabel, detail(map[string]interface{}{"diff": core.TrimDiff(d, 10)}))
 		}
 		if err != nil {
 			if d := core.Diff("xibc", pre, e.n.DumpPrefix(uctx, "xibc", clientPrefix)); len(d) > 0 {
@@ -395,18 +419,18 @@ func (c *tcase) attemptAt(h ethtypes.Header, nd *node, commit bool, what string,
 // checkAfter verifies, on ctx (where nd has just been accepted), that nd is the
 // client's head and that every consensus state kept for a height on nd's
 // ancestry carries that ancestor's state root.
-func (c *tcase) checkAfter(ctx sdk.Context, nd *node, rel, what string) {
+func (c *tcase) checkAfter(ctx sdk.Context, nd *node, rel, what string, commit bool) {
 	e, r := c.e, c.e.r
 	ck := e.n.App.XIBCKeeper.ClientKeeper
 	csI, ok := ck.GetClientState(ctx, clientName)
 	cs, ok2 := csI.(*ethtypes.ClientState)
 	if !ok || !ok2 {
-		r.Violation(c.id, "head/client-state-missing/after-"+rel, map[string]interface{}{"what": what, "history": c.hist})
+		c.viol("head/client-state-missing/after-"+rel, map[string]interface{}{"what": what, "history": c.hist})
 		return
 	}
 	hh := cs.Header.Hash()
 	if hh != nd.hash || cs.Header.Height.RevisionHeight != nd.height() {
-		r.Violation(c.id, "head/not-the-accepted-header/after-"+rel, map[string]interface{}{
+		c.viol("head/not-the-accepted-header/after-"+rel, map[string]interface{}{
 			"what": what, "accepted": nd.id, "accepted_hash": nd.hash.Hex(), "client_head_hash": hh.Hex(), "client_head_height": cs.Header.Height.RevisionHeight,
 			"tree": c.treeDesc(), "history": c.hist,
 		})
@@ -420,7 +444,20 @@ func (c *tcase) checkAfter(ctx sdk.Context, nd *node, rel, what string) {
 			continue
 		}
 		present++
-		if !bytes.Equal(cons.GetRoot(), a.hdr.Root) {
+		if bytes.Equal(cons.GetRoot(), a.hdr.Root) {
+			if commit {
+				delete(c.badAnc, a)
+			}
+			continue
+		}
+		if c.badAnc[a] {
+			r.Count("checked/inherited_wrong_consensus_roots_not_reported_again", 1)
+			continue
+		}
+		if commit {
+			c.badAnc[a] = true
+		}
+		{
 			where := "below-head"
 			if a == nd {
 				where = "at-head"
@@ -431,7 +468,7 @@ func (c *tcase) checkAfter(ctx sdk.Context, nd *node, rel, what string) {
 					other = x.id
 				}
 			}
-			r.Violation(c.id, "consensus-root/wrong-on-head-ancestry/"+where+"/after-"+rel, map[string]interface{}{
+			c.viol("consensus-root/wrong-on-head-ancestry/"+where+"/after-"+rel, map[string]interface{}{
 				"what": what, "head": nd.id, "ancestor": a.id, "height": a.height(), "ancestor_root": core.Hex(a.hdr.Root), "stored_root": core.Hex(cons.GetRoot()),
 				"stored_root_belongs_to": other, "tree": c.treeDesc(), "history": c.hist,
 			})
